@@ -303,7 +303,22 @@ func ruleSnapshotIsolation(c *Ctx, rule string) {
 			}
 		}
 	})
-	r.Floor(rule, "fields initialised by Copy", len(stored), 8)
+	// `result := *es` copies every field shallowly; fields that are not re-assigned afterwards are shared with the receiver
+	structCopied := false
+	instrsOf(cp, func(in ssa.Instruction) {
+		if s, ok := in.(*ssa.Store); ok {
+			if a, isAlloc := s.Addr.(*ssa.Alloc); isAlloc && types.Identical(deref(a.Type()), stT) {
+				if u, ok := s.Val.(*ssa.UnOp); ok && u.Op == token.MUL && len(cp.Params) > 0 && u.X == ssa.Value(cp.Params[0]) {
+					structCopied = true
+				}
+			}
+		}
+	})
+	ninit := len(stored)
+	if structCopied {
+		ninit = st.NumFields()
+	}
+	r.Floor(rule, "fields initialised by Copy", ninit, 8)
 	for i := 0; i < st.NumFields(); i++ {
 		f := st.Field(i)
 		if !isRefType(f.Type()) && !hasRefField(f.Type()) {
@@ -315,6 +330,25 @@ func ruleSnapshotIsolation(c *Ctx, rule string) {
 			continue
 		}
 		v, ok := stored[f.Name()]
+		if !ok && structCopied {
+			// shared with the receiver through the struct copy
+			key := "SearchEngineState." + f.Name()
+			var sharedMut []string
+			if w, isM := M[key]; isM {
+				sharedMut = append(sharedMut, key+" ("+w+")")
+			}
+			for _, lf := range refLeaves(f.Type(), map[string]bool{}) {
+				if w, isM := M[lf]; isM {
+					sharedMut = append(sharedMut, lf+" ("+w+")")
+				}
+			}
+			if _, isStack := f.Type().(*types.Pointer); isStack || len(sharedMut) > 0 {
+				ob.Bad("the struct copy leaves this field shared between snapshot and live state and it is mutated in place: " + strings.Join(sharedMut, "; "))
+			} else {
+				ob.OKnt("copied by the struct assignment; shared but never mutated in place in package engine")
+			}
+			continue
+		}
 		if !ok {
 			ob.Bad("Copy does not initialise this reference field: the snapshot loses it")
 			continue
@@ -524,12 +558,18 @@ func ruleHandlersOwnCopy(c *Ctx, rule string) {
 		}
 	})
 	r.Floor(rule, "instruction handlers called by matchInstruction", len(handlers), 10)
-	for _, h := range handlers {
-		ob := r.Ob(rule, fnName(h)+" works on its own copy of the state", c.pos(h.Pos()))
-		cur := h.Params[1]
+	stT := c.NamedType("engine", "SearchEngineState")
+	isStatePtr := func(t types.Type) bool {
+		p, ok := t.(*types.Pointer)
+		return ok && stT != nil && types.Identical(p.Elem(), stT)
+	}
+	// ownCopy examines how fn treats the state it receives as parameter cur: it may read it, Copy it, or hand it to a helper that is
+	// held to the same rule; what it returns must be such a copy.
+	var ownCopy func(fn *ssa.Function, cur *ssa.Parameter, depth int) []string
+	ownCopy = func(fn *ssa.Function, cur *ssa.Parameter, depth int) []string {
 		var bad []string
-		var copyCall *ssa.Call
-		instrsOf(h, func(in ssa.Instruction) {
+		copies := map[ssa.Value]bool{}
+		instrsOf(fn, func(in ssa.Instruction) {
 			switch x := in.(type) {
 			case *ssa.Store:
 				if traceAddr(x.Addr).Root == ssa.Value(cur) {
@@ -542,27 +582,60 @@ func ruleHandlersOwnCopy(c *Ctx, rule string) {
 			case *ssa.Call:
 				sc := x.Call.StaticCallee()
 				if sc == cp && len(x.Call.Args) == 1 && x.Call.Args[0] == ssa.Value(cur) {
-					copyCall = x
+					copies[x] = true
 					return
 				}
 				if sc != nil && len(x.Call.Args) > 0 && traceAddr(x.Call.Args[0]).Root == ssa.Value(cur) {
 					if why, isMut := mut[sc]; isMut {
 						bad = append(bad, fmt.Sprintf("calls %s on the incoming state, which %s", sc.Name(), why))
+						return
+					}
+				}
+				// handed to a helper of the package that returns a state: the helper's result counts as the copy if the helper obeys the rule
+				if sc != nil && c.isRepoFn(sc) && sc.Pkg == fn.Pkg && sc.Signature.Recv() == nil && depth < 2 && sc.Signature.Results().Len() == 1 && isStatePtr(sc.Signature.Results().At(0).Type()) {
+					for i, a := range x.Call.Args {
+						if a == ssa.Value(cur) && i < len(sc.Params) {
+							if sub := ownCopy(sc, sc.Params[i], depth+1); len(sub) == 0 {
+								copies[x] = true
+							} else {
+								bad = append(bad, "hands the incoming state to "+sc.Name()+", which "+strings.Join(uniq(sub), "; "))
+							}
+						}
 					}
 				}
 			}
 		})
-		if copyCall == nil {
+		if len(copies) == 0 {
 			bad = append(bad, "never takes current_state.Copy()")
 		} else {
-			instrsOf(h, func(in ssa.Instruction) {
-				if ret, ok := in.(*ssa.Return); ok && len(ret.Results) == 1 && ret.Results[0] != ssa.Value(copyCall) {
+			var isCopy func(v ssa.Value, d int) bool
+			isCopy = func(v ssa.Value, d int) bool {
+				if copies[v] {
+					return true
+				}
+				if p, ok := v.(*ssa.Phi); ok && d < 4 {
+					for _, e := range p.Edges {
+						if !isCopy(e, d+1) {
+							return false
+						}
+					}
+					return len(p.Edges) > 0
+				}
+				return false
+			}
+			instrsOf(fn, func(in ssa.Instruction) {
+				if ret, ok := in.(*ssa.Return); ok && len(ret.Results) == 1 && !isCopy(ret.Results[0], 0) {
 					bad = append(bad, "returns "+exprStr(ret.Results[0])+" instead of the copy")
 				}
 			})
 		}
+		return bad
+	}
+	for _, h := range handlers {
+		ob := r.Ob(rule, fnName(h)+" works on its own copy of the state", c.pos(h.Pos()))
+		bad := ownCopy(h, h.Params[1], 0)
 		if len(bad) == 0 {
-			ob.OKnt("no store or mutating call on the incoming state; returns current_state.Copy()")
+			ob.OKnt("no store or mutating call on the incoming state; returns current_state.Copy() (possibly made by a helper held to the same rule)")
 		} else {
 			ob.Bad(strings.Join(uniq(bad), "; ") + " — the state saved by an earlier CHECKPOINT or held by the caller is modified behind its back")
 		}
